@@ -31,6 +31,8 @@ func runC10(c *Ctx) {
 	// the error result exists whenever a scheduled provider is fallible (the flag is set per scheduled node in Build, not
 	// derived from a narrower walk), and the handler table follows that flag
 	ruleHandlerNeverNil(c, "C10.9")
+	ruleChanDirMapping(c, "C10.10", genPkg)
+	ruleContextInjectedOnEveryPath(c, "C10.11")
 
 	// ---- C10.1 needed-only provenance
 	n := 0
